@@ -1,4 +1,6 @@
 import TdModel.Model.C37Unescape
+import TdModel.Model.C37Html
+import TdModel.Lemmas.C35
 
 namespace TdModel.C37U
 open TdModel
@@ -189,3 +191,44 @@ theorem telegramUnescape_spec (b : Bytes) :
   unescapeFrom_spec b.length b (Nat.le_refl _)
 
 end TdModel.C37U
+
+namespace TdModel.C37H
+open TdModel.C35
+
+theorem endTag_st (p p' : PS) (name : Option String) (he : endTag p name = .ok p') :
+    p'.st = p.st ∨ ∃ op, p'.st = step p.st op := by
+  simp only [endTag, pure, Except.pure, throw, throwThe, MonadExceptOf.throw] at he
+  repeat' split at he
+  all_goals (cases he <;> first | exact Or.inl rfl | exact Or.inr ⟨Op.apply _ _, rfl⟩)
+
+theorem endTag_inv (p p' : PS) (name : Option String) (h : Inv p.st) (he : endTag p name = .ok p') : Inv p'.st := by
+  rcases endTag_st p p' name he with h1 | ⟨op, h1⟩
+  · rw [h1]; exact h
+  · rw [h1]; exact inv_step h op
+
+theorem stepTok_inv (p p' : PS) (t : HTok) (h : Inv p.st) (he : stepTok p t = .ok p') : Inv p'.st := by
+  cases t with
+  | text s =>
+    have h1 := Except.ok.inj he
+    subst h1
+    exact (inv_step h (.write s) : Inv (step p.st (.write s)))
+  | start tag =>
+    have h1 := Except.ok.inj he
+    subst h1
+    exact (inv_step h .token : Inv (step p.st .token))
+  | stop tag => exact endTag_inv p p' (some tag) h he
+  | stopAny => exact endTag_inv p p' none h he
+
+theorem parseToks_inv : ∀ (toks : List HTok) (p p' : PS), Inv p.st → parseToks p toks = .ok p' → Inv p'.st := by
+  intro toks
+  induction toks with
+  | nil => intro p p' h he; cases he; exact h
+  | cons t rest ih =>
+    intro p p' h he
+    simp only [parseToks, bind, Except.bind] at he
+    split at he
+    · cases he
+    · rename_i p1 h1
+      exact ih p1 p' (stepTok_inv p p1 t h h1) he
+
+end TdModel.C37H
